@@ -239,16 +239,15 @@ func c16Exec(c *core.Ctx, cs c16Case) {
 		got, err := pattern.Glob(p)
 		c.Eval(1)
 		key := fmt.Sprintf("%q in %s", pt, treeStr(cs.Tree))
-		if skip != "" {
-			c.Skip("pattern not judged: " + skip)
-			continue
+		if skip == "" {
+			c.Count("globs/"+c16Class(pt), 1)
+			if err != nil {
+				c.Violation("error", key, fmt.Sprintf("%q", want), err.Error(), "")
+				continue
+			}
 		}
-		c.Count("globs/"+c16Class(pt), 1)
-		if err != nil {
-			c.Violation("error", key, fmt.Sprintf("%q", want), err.Error(), "")
-			continue
-		}
-		// model-free clauses
+		// model-free clauses (they hold for every pattern Glob answers without error,
+		// also for those the reference walker does not judge)
 		for i, g := range got {
 			if _, err := os.Lstat(g); err != nil {
 				c.Violation("nonexistent", key, "every returned path exists", fmt.Sprintf("%q: %v", g, err), "")
@@ -257,6 +256,10 @@ func c16Exec(c *core.Ctx, cs c16Case) {
 				c.Violation("order", key, "strictly ascending byte order", fmt.Sprintf("%q", strings.ReplaceAll(fmt.Sprint(got), root, "<ROOT>")), "")
 				break
 			}
+		}
+		if skip != "" {
+			c.Skip("pattern not judged: " + skip)
+			continue
 		}
 		if !sameSet(got, want) {
 			c.Violation("set", key, strings.ReplaceAll(fmt.Sprintf("%q", want), root, "<ROOT>"), strings.ReplaceAll(fmt.Sprintf("%q", got), root, "<ROOT>"), "")
@@ -399,7 +402,7 @@ func c16RandPatterns(r *rand.Rand, tree []c16Entry, n int) []string {
 			paths = append(paths, e.Path+"/inner")
 		}
 	}
-	fixed := []string{"*", ".*", "*/", "*/*", "*/.*", ".*/", "./*", "*//", "*//*", "?", "??*", "[a-b]*", "*.go", "<ROOT>/*", "<ROOT>/*/", "<ROOT>/.*", "<ROOT>//*", "a", "a/", "nope", "nope/*", "*/nope", ".", "..", "../*", "./", "*/../*", `\*`, `*\/`, `*\/*`, "[!.]*", `\.*`, "*/*/", "*/*/*", "a//", "nope//", "*/a//", "<ROOT>/nope///", "a.go//", "*/a.go//"}
+	fixed := []string{"*", ".*", "*/", "*/*", "*/.*", ".*/", "./*", "*//", "*//*", "?", "??*", "[a-b]*", "*.go", "<ROOT>/*", "<ROOT>/*/", "<ROOT>/.*", "<ROOT>//*", "a", "a/", "nope", "nope/*", "*/nope", ".", "..", "../*", "./", "*/../*", `\*`, `*\/`, `*\/*`, "[!.]*", `\.*`, "*/*/", "*/*/*", "a//", "nope//", "*/a//", "<ROOT>/nope///", "a.go//", "*/a.go//", `*\`, `a\`, `a/\`, `\`, `?\`, `*/\`}
 	out := append([]string(nil), fixed...)
 	for len(out) < n {
 		p := pick(r, paths)
